@@ -14,6 +14,7 @@ import (
 	"strconv"
 	"strings"
 	"sync"
+	"sync/atomic"
 	"time"
 
 	"verif/lib/ev"
@@ -98,6 +99,23 @@ func worker(scenarios []Scenario, sh string, budget time.Duration) {
 	var i, k int
 	fmt.Sscanf(sh, "%d/%d", &i, &k)
 	deadline := time.Now().Add(budget)
+	// memory guard: the race build's shadow state is outside the Go heap limit; a worker whose
+	// resident set passes 5 GB stops exploring (what it did not finish is reported as capped)
+	var overMem int32
+	go func() {
+		for {
+			time.Sleep(2 * time.Second)
+			if b, err := os.ReadFile("/proc/self/status"); err == nil {
+				if i := strings.Index(string(b), "VmRSS:"); i >= 0 {
+					var kb int64
+					fmt.Sscanf(strings.TrimSpace(string(b)[i+6:]), "%d", &kb)
+					if kb > 5<<20 {
+						atomic.StoreInt32(&overMem, 1)
+					}
+				}
+			}
+		}
+	}()
 	res := shardResult{Race: vrt.RaceEnabled, Known: map[string]int{}}
 	known := map[string]bool{}
 	for _, k := range strings.Split(os.Getenv("VERIF_KNOWN"), "\n") {
@@ -168,7 +186,7 @@ func worker(scenarios []Scenario, sh string, budget time.Duration) {
 			outcomes[out] = true
 			return f
 		}
-		stats := vrt.Explore(vrt.Options{MaxBound: bound, Cache: true, Delay: sc.Delay, Stop: func() bool { return time.Now().After(scDeadline) }},
+		stats := vrt.Explore(vrt.Options{MaxBound: bound, Cache: true, Delay: sc.Delay, Stop: func() bool { return time.Now().After(scDeadline) || atomic.LoadInt32(&overMem) != 0 }},
 			body, func(x *vrt.Exec) bool {
 				st.Steps += int64(x.Steps)
 				f := judge(x)
